@@ -148,3 +148,164 @@ Proof.
   subst sz2. unfold mac_input in F1, F2. rewrite F2 in F1. injection F1 as <- <-. auto.
 Qed.
 End Step.
+
+(* ---- whole-stream theorem: delivered is a prefix of sent (ETM and AEAD) ------------------ *)
+Section Prefix.
+Variable P : prims.
+Notation FS := (list Z).
+
+Lemma finish_mode r m sz pk ev p ev' r' : finish P r m sz pk ev = Ok (p, ev', r') -> p_mode r' = m.
+Proof.
+  unfold finish. destruct pk as [|pad pk]; [discriminate|].
+  destruct (match p_z r with
+            | Some z => bind (z_decomp P z (py_slice1 (pad :: pk) (sz - pad))) (fun dz => Ok (fst dz, Some (snd dz)))
+            | None => Ok (py_slice1 (pad :: pk) (sz - pad), None)
+            end) as [pz|]; cbn [bind]; [|discriminate].
+  destruct (((p_seq r + 1) mod 2 ^ 32 =? 0) && negb (p_kex r)); [discriminate|].
+  destruct (fst pz); [discriminate|]. intros H. injection H as _ _ <-. reflexivity.
+Qed.
+
+Lemma nonce_delivered r T p ev r' rest :
+  protected r -> read_message P FS ftake r T = Done (p, ev, r') rest ->
+  ev_nonce ev = state_nonce r /\ protected r'.
+Proof.
+  intros Hp H. apply deliver_inv in H. unfold protected, state_nonce in *.
+  destruct (p_mode r) as [|c k|c k|k iv]; try contradiction.
+  - destruct H as (size & pk & tag & -> & _ & F). apply finish_mode in F. rewrite F. split; [|exact I].
+    cbn [ev_nonce]. unfold mac_input. apply firstn_app_exact. now rewrite be_encode_length.
+  - destruct H as (aad & ct & pt & iv' & -> & _ & _ & F). apply finish_mode in F. rewrite F. split; [reflexivity|exact I].
+Qed.
+
+Lemma step_protected r T W p ev r' rest ph evh rh resth :
+  protected r -> bytes_ok T = true -> bytes_ok W = true ->
+  read_message P FS ftake r T = Done (p, ev, r') rest ->
+  read_message P FS ftake r W = Done (ph, evh, rh) resth ->
+  ev = evh -> p = ph /\ r' = rh.
+Proof.
+  intros Hp B1 B2 H1 H2 E. unfold protected in Hp. destruct (p_mode r) as [|c k|c k|k iv] eqn:Em; try contradiction.
+  - exact (etm_step P r c k T W p ev r' rest ph evh rh resth Em B1 B2 H1 H2 E).
+  - exact (aead_step P r k iv T W p ev r' rest ph evh rh resth Em H1 H2 E).
+Qed.
+
+Lemma rest_bytes r T x rest :
+  read_message P FS ftake r T = Done x rest -> bytes_ok T = true -> bytes_ok rest = true.
+Proof.
+  intros H B. destruct (mono_read_message P r _ _ _ H) as (c & -> & _). rewrite bytes_ok_app in B.
+  now apply andb_true_iff in B as [_ B].
+Qed.
+
+Lemma log_nonces : forall fuel r W ps log fi rf sf,
+  protected r -> read_many P FS ftake fuel r W = (ps, log, fi, rf, sf) ->
+  forall e, In e log -> In (ev_nonce e) (honest_nonces P fuel r W).
+Proof.
+  induction fuel as [|f IH]; intros r W ps log fi rf sf Hp H e He.
+  - cbn in H. injection H as _ <- _ _ _. destruct He.
+  - cbn [read_many] in H. cbn [honest_nonces]. unfold read_message_flat.
+    destruct (read_message P FS ftake r W) as [| x | [[p ev] r'] W'] eqn:E.
+    + injection H as _ <- _ _ _. destruct He.
+    + injection H as _ <- _ _ _. destruct He.
+    + destruct (nonce_delivered r W p ev r' W' Hp E) as [Hn Hp'].
+      destruct (read_many P FS ftake f r' W') as [[[[ps1 log1] fi1] rf1] sf1] eqn:E2.
+      injection H as _ <- _ _ _. destruct He as [<- | He].
+      * left. now symmetry.
+      * right. eapply IH; eauto.
+Qed.
+
+Lemma prefix_core : forall fuelh r W done psh log fih rfh sfh,
+  read_many P FS ftake fuelh r W = (psh, log, fih, rfh, sfh) ->
+  NoDup (honest_nonces P fuelh r W) ->
+  (forall e, In e done -> ~ In (ev_nonce e) (honest_nonces P fuelh r W)) ->
+  protected r -> bytes_ok W = true ->
+  forall fuel T ps acc fi rf sf, bytes_ok T = true ->
+    read_many P FS ftake fuel r T = (ps, acc, fi, rf, sf) ->
+    Forall (fun e => In e (done ++ log)) acc -> is_prefix ps psh.
+Proof.
+  induction fuelh as [|fh IH]; intros r W done psh log fih rfh sfh Hh Hnd Hdone Hp BW fuel T ps acc fi rf sf BT Ha Hacc.
+  - (* the honest run delivered nothing more: any acceptance would reuse an old nonce *)
+    cbn in Hh. injection Hh as <- <- _ _ _. cbn [honest_nonces] in Hdone.
+    destruct fuel as [|f]; [cbn in Ha; injection Ha as <- _ _ _ _; exists []; reflexivity|].
+    cbn [read_many] in Ha. destruct (read_message P FS ftake r T) as [| x | [[p ev] r'] T'] eqn:E.
+    + injection Ha as <- _ _ _ _. exists []. reflexivity.
+    + injection Ha as <- _ _ _ _. exists []. reflexivity.
+    + destruct (nonce_delivered r T p ev r' T' Hp E) as [Hn _].
+      destruct (read_many P FS ftake f r' T') as [[[[ps1 acc1] fi1] rf1] sf1].
+      injection Ha as _ <- _ _ _. inversion Hacc as [|? ? Hin _]; subst. rewrite app_nil_r in Hin.
+      exfalso. apply (Hdone ev Hin). left. now symmetry.
+  - cbn [read_many] in Hh. cbn [honest_nonces] in Hnd, Hdone. unfold read_message_flat in Hnd, Hdone.
+    destruct fuel as [|f]; [cbn in Ha; injection Ha as <- _ _ _ _; exists psh; reflexivity|].
+    cbn [read_many] in Ha. destruct (read_message P FS ftake r T) as [| x | [[p ev] r'] T'] eqn:E.
+    1,2: injection Ha as <- _ _ _ _; exists psh; reflexivity.
+    destruct (nonce_delivered r T p ev r' T' Hp E) as [Hn Hp'].
+    destruct (read_many P FS ftake f r' T') as [[[[ps1 acc1] fi1] rf1] sf1] eqn:Ea.
+    injection Ha as <- <- _ _ _. inversion Hacc as [|? ? Hin Hacc']; subst.
+    destruct (read_message P FS ftake r W) as [| x | [[ph evh] rh] Wh] eqn:Eh.
+    + injection Hh as _ <- _ _ _. rewrite app_nil_r in Hin. exfalso. apply (Hdone ev Hin). left. now symmetry.
+    + injection Hh as _ <- _ _ _. rewrite app_nil_r in Hin. exfalso. apply (Hdone ev Hin). left. now symmetry.
+    + destruct (nonce_delivered r W ph evh rh Wh Hp Eh) as [Hnh Hph].
+      destruct (read_many P FS ftake fh rh Wh) as [[[[psh1 log1] fih1] rfh1] sfh1] eqn:Eh2.
+      injection Hh as <- <- _ _ _. inversion Hnd as [|? ? Hnotin Hnd']; subst.
+      assert (Hev : ev = evh).
+      { apply in_app_or in Hin as [Hin | [Hin | Hin]].
+        - exfalso. apply (Hdone ev Hin). left. now symmetry.
+        - now symmetry.
+        - exfalso. apply Hnotin. rewrite <- Hn. eapply log_nonces; eauto. }
+      destruct (step_protected r T W p ev r' T' ph evh rh Wh Hp BT BW E Eh Hev) as [-> ->].
+      assert (Hpre : is_prefix ps1 psh1).
+      { eapply (IH rh Wh (evh :: done) psh1 log1 fih1 rfh1 sfh1 Eh2 Hnd').
+        - intros e [<- | He] Hc.
+          + apply Hnotin. now rewrite <- Hnh.
+          + apply (Hdone e He). now right.
+        - exact Hph.
+        - eapply rest_bytes; eauto.
+        - eapply rest_bytes; eauto.
+        - exact Ea.
+        - eapply Forall_impl; [|exact Hacc']. intros e He. cbn beta in He.
+          apply in_app_or in He as [He | [He | He]].
+          + apply in_or_app. left. now right.
+          + apply in_or_app. left. now left.
+          + apply in_or_app. now right. }
+      destruct Hpre as [t ->]. exists t. reflexivity.
+Qed.
+End Prefix.
+
+Section PrefixThm.
+Variable P : prims.
+Variable cinv : Z -> cst P -> cst P -> Prop.
+Variable zinv : zst P -> zst P -> Prop.
+Hypothesis HP : prims_ok P cinv zinv.
+Notation FS := (list Z).
+
+Theorem prefix_thm ops s r ws s' :
+  sync cinv zinv s r -> ops_ok cinv zinv ops -> all_msgs P ops -> send_ops P s ops = Ok (ws, s') ->
+  protected r -> bytes_ok (concat ws) = true ->
+  forall fuelh, (length ops < fuelh)%nat ->
+  NoDup (honest_nonces P fuelh r (concat ws)) ->
+  forall fuel T ps acc fi rf sf, bytes_ok T = true ->
+    read_many P FS ftake fuel r T = (ps, acc, fi, rf, sf) ->
+    authentic (sender_log P fuelh r (concat ws)) acc ->
+    is_prefix ps (payloads P ops) /\ (fi = FNeed \/ fi = FFuel \/ exists e, fi = FErr e).
+Proof.
+  intros Hs Hok Hall Hsend Hp BW fuelh Hf Hnd fuel T ps acc fi rf sf BT Ha Hauth.
+  destruct (read_many_prefix P cinv zinv HP ops s r ws s' [] Hs Hok Hall Hsend (or_introl eq_refl) fuelh Hf)
+    as (evs & r' & Hrm & _).
+  rewrite app_nil_r in Hrm. split.
+  - assert (Hd : forall e, In e (@nil authev) -> ~ In (ev_nonce e) (honest_nonces P fuelh r (concat ws)))
+      by (intros e []).
+    assert (Hacc : Forall (fun e => In e ([] ++ evs)) acc).
+    { unfold authentic, sender_log, read_many_flat in Hauth. rewrite Hrm in Hauth. exact Hauth. }
+    exact (prefix_core P fuelh r (concat ws) [] _ _ _ _ _ Hrm Hnd Hd Hp BW fuel T ps acc fi rf sf BT Ha Hacc).
+  - destruct fi; eauto.
+Qed.
+End PrefixThm.
+
+(* non-vacuity of the distinctness hypothesis, on the toy primitives *)
+Definition ex_cfg := Cfg 2 8 8 5 [1;2;3;4;5;6;7;8] [9;9] 0 [] false None.
+Definition ex_wire : list Z :=
+  concat (fst (fst (send_many (cfg_apply (init_state 0 true) ex_cfg) [([7;1;2], []); ([8], []); ([9;9], [])]))).
+Lemma ex_nodup : NoDup (honest_nonces toyP 4 (cfg_apply (init_state 0 true) ex_cfg) ex_wire) /\
+                 length (honest_nonces toyP 4 (cfg_apply (init_state 0 true) ex_cfg) ex_wire) = 4%nat.
+Proof.
+  vm_compute. split; [|reflexivity].
+  repeat (constructor; [intros H; cbn in H; repeat (destruct H as [H|H]; [discriminate H|]); exact H |]).
+  constructor.
+Qed.
